@@ -11,7 +11,8 @@ read bitmap) is the length of the longest all-published prefix; `data()` returns
 
 Bucket.  `blocks` in allocation order, `tail : Option BlockId`, `next` links written by the pusher that
 installed a block BEFORE its CAS (since the `fix:` commit; previously after it — the hand-over window).  Readers: `data_with` (snapshot), `clear_with`
-(detach by CAS, then walk), `is_empty`.  Reclamation (crossbeam-epoch) is not modelled: blocks are never reused.
+(detach by CAS — retried from the tail load when the CAS fails, since the `fix:` commit "clear_with retries its detach …" —
+then walk), `is_empty`.  Reclamation (crossbeam-epoch) is not modelled: blocks are never reused.
 
 Ghost state: `completed` pushes per thread, values `delivered` to clear callbacks, per-call results.
 -/
@@ -167,7 +168,7 @@ def stepThread (s : Sys) (t : Thread) : Sys × Thread :=
     | some b => (s, { t with pc := .cCas b })
   | .cCas old =>
     if s.tail = some old then ({ s with tail := none }, { t with pc := .cQuiesced old })
-    else (s, t.advance (.cleared []))          -- CAS failed: clear_with does nothing
+    else (s, { t with pc := .cLoadTail })      -- CAS failed: load the tail again and retry (fix: commit "clear_with retries its detach …")
   | .cQuiesced blk => (s, { t with pc := if (getBlock s blk).quiesced s.B then .cRead blk else .cWait blk })
   | .cWait blk => (s, { t with pc := if (getBlock s blk).quiesced s.B then .cRead blk else .cWait blk })
   | .cRead blk => (s, { t with acc := t.acc ++ (getBlock s blk).data, pc := .cNext blk })
@@ -194,6 +195,27 @@ def step (s : Sys) (tid : Nat) : Sys :=
     { s' with threads := setAt s'.threads tid t' }
 
 def run (s : Sys) (sched : List Nat) : Sys := sched.foldl step s
+
+/-! ### legacy variant: `clear_with` before the fix "clear_with retries its detach when the tail moved under it"
+
+Identical to `stepThread` except for one branch: a detaching CAS that FAILS (the tail is no longer the loaded block)
+ended the call with nothing delivered, instead of going back to the tail load.  Kept only so that the witnesses of
+the repaired defect stay kernel-checked theorems (`Props/C05.lean`: `legacy_failed_detach_witness`;
+`Props/C07Conc.lean`: `legacy_render_misses_completed_record`); nothing else refers to it. -/
+
+def stepThreadLegacy (s : Sys) (t : Thread) : Sys × Thread :=
+  match t.pc with
+  | .cCas old => if s.tail = some old then stepThread s t else (s, t.advance (.cleared []))
+  | _ => stepThread s t
+
+def stepLegacy (s : Sys) (tid : Nat) : Sys :=
+  match s.threads[tid]? with
+  | none => s
+  | some t =>
+    let (s', t') := stepThreadLegacy s t
+    { s' with threads := setAt s'.threads tid t' }
+
+def runLegacy (s : Sys) (sched : List Nat) : Sys := sched.foldl stepLegacy s
 
 /-- the point id the implementation is parked at.  `cCas` is the yield point `bkt.clear.cas` between the tail load
     of `clear_with` and its detaching CAS (verification hook; reached only when the loaded tail was non-null, exactly
